@@ -104,6 +104,7 @@ impl Prop for MissingAddress {
                     .iter()
                     .enumerate()
                     .map(|(k, (ty, has))| ExtVal {
+                        sty: 0,
                         vis: true,
                         name: format!("g{k}"),
                         ty: ty.clone(),
